@@ -18,4 +18,4 @@ pub assume_specification [<Ipv6Addr as From<[u8; 16]>>::from] (b: [u8; 16]) -> (
 pub assume_specification [Ipv6Addr::octets] (a: &Ipv6Addr) -> (r: [u8; 16])
     ensures r@ == v6_octets(*a);
 pub assume_specification [<[u8]>::make_ascii_lowercase] (s: &mut [u8])
-    ensures final(s)@.len() == old(s)@.len(), forall|i: int| 0 <= i < old(s)@.len() ==> final(s)@[i] == lower(old(s)@[i]);
+    ensures final(s)@.len() == old(s)@.len(), forall|i: int| 0 <= i < old(s)@.len() ==> #[trigger] final(s)@[i] == lower(old(s)@[i]);
